@@ -46,7 +46,7 @@ struct Runner<'a> {
 impl Runner<'_> {
     fn step(&mut self, s: J) -> J {
         let evs = self.ex.step(&s);
-        let r = evs.last().unwrap().get("r").cloned().unwrap_or(json!({"ok": 0}));
+        let r = evs.iter().find_map(|e| e.get("r").cloned()).unwrap_or(json!({"ok": 0}));
         self.log.extend(evs);
         r
     }
@@ -235,6 +235,16 @@ fn main() {
                             mutations.fetch_add(1, Ordering::Relaxed);
                             dst_actual = r.dump();
                             if dst_actual != tr.dst {
+                                bad = true;
+                            }
+                            // len() must count the entries (pairs) of the target state
+                            let want_len: u64 = if mode == "table" {
+                                tr.dst.as_array().unwrap().len() as u64
+                            } else {
+                                tr.dst.as_array().unwrap().iter().map(|p| p[1].as_array().unwrap().len() as u64).sum()
+                            };
+                            let got_len = r.step(json!({"e": "len", "src": "w", "n": "a"}));
+                            if got_len.get("ok").and_then(|x| x.as_u64()) != Some(want_len) {
                                 bad = true;
                             }
                             if tc.restore == "commit" && !bad {
